@@ -58,7 +58,7 @@ def check(run):
     ch = versgen.chains(run)
     allacc = [t for e in ECOS for t in acc[e][:50]]
     runs = []
-    reps = 2 if quick else 10
+    reps = 2 if quick else 25
     for s in sh:
         names = ECOS if s["name"] == "eco" else ["vers"] if s["name"] == "vers" else UNKNOWN if s["name"] == "unknown" else [None]
         for nm in names:
@@ -80,7 +80,7 @@ def check(run):
                 runs.append({"tag": "shape", "argv": [codes(a) for a in argv]})
     # registry wiring: per name, operations on that ecosystem's own (and foreign) texts
     for e in ECOS:
-        n = 25 if quick else 120
+        n = 25 if quick else 300
         for _ in range(n):
             pool = acc[e] if rnd.random() < 0.8 else allacc
             runs.append({"tag": "wiring", "argv": [codes(x) for x in [e, "compare", rnd.choice(pool), rnd.choice(pool)]]})
